@@ -24,6 +24,12 @@ def gen_case(rng):
     else:
         rw, srw = rng.choice([1000, 1 << 20]), rng.choice([200, 1 << 16])
     pmb, pmu = rng.range(0, 3), rng.range(0, 3)
+    send_script = rng.chance(2, 3)
+    recv_script = rng.chance(2, 3)
+    if send_script:
+        pmb, pmu = max(pmb, 1), max(pmu, 1)
+    if recv_script:
+        mru = max(mru, 1)
     ops = [[0, side, mru, mrb, rw, srw, pmb, pmu]]
     opened = {0: 0, 1: 0}
     ends = {}
@@ -71,7 +77,107 @@ def gen_case(rng):
     used_bi = 0
     acc_bi = 0
     logn = 0
-    for _ in range(rng.range(10, 44)):
+    if send_script:
+        # scripted history of one send half: several STREAM frames transmitted separately, FIN,
+        # selective / out-of-order acks, reset at a random point (incl. right after the FIN was
+        # acknowledged with data outstanding), a second reset, the remaining acks, then probes.
+        d = rng.below(2)
+        a_id = sid(side, d, 0)
+        ops.append([8, d])
+        opened[d] = 1
+        ids.append(a_id)
+        if rng.chance(2, 3):
+            # ballast: unacknowledged data on another stream
+            ops.append([8, 1 - d])
+            opened[1 - d] = 1
+            b_id = sid(side, 1 - d, 0)
+            ids.append(b_id)
+            ops.append([10, b_id, 60])
+            ops.append([15])
+            logn += 1
+        mine = []
+        for _j in range(rng.range(1, 3)):
+            ops.append([10, a_id, rng.choice([1, 3, 7, 12])])
+            ops.append([15])
+            mine.append(logn)
+            logn += 1
+        if rng.chance(1, 4):
+            lost = rng.choice(mine)
+            ops.append([19, lost])
+            ops.append([15])
+            mine.remove(lost)
+            mine.append(logn)
+            logn += 1
+        fin_idx = None
+        if rng.chance(5, 6):
+            ops.append([11, a_id])
+            ops.append([15])
+            fin_idx = logn
+            logn += 1
+        order = list(mine)
+        # shuffle
+        for j in range(len(order) - 1, 0, -1):
+            k2 = rng.below(j + 1)
+            order[j], order[k2] = order[k2], order[j]
+        if fin_idx is not None:
+            if rng.chance(1, 2):
+                order.insert(0, fin_idx)      # the packet carrying the FIN is acknowledged first
+            else:
+                order.insert(rng.below(len(order) + 1), fin_idx)
+        m = rng.below(8)
+        if m < 3 and fin_idx is not None:
+            reset_at = order.index(fin_idx) + 1
+        elif m < 7:
+            reset_at = rng.below(len(order) + 1)
+        else:
+            reset_at = None
+        for j, idx in enumerate(order + [None]):
+            if reset_at == j:
+                ops.append([12, a_id, rng.below(4)])
+                if rng.chance(2, 3):
+                    ops.append([12, a_id, rng.below(4)])
+                if rng.chance(1, 3):
+                    ops.append([11, a_id])
+                if rng.chance(1, 3):
+                    ops.append([17, a_id])
+            if idx is not None:
+                ops.append([16, idx])
+        ops.append([18])
+        ops.append([18])
+        ops.append([rng.choice([10, 11, 12, 13]), a_id] + ([2] if rng.chance(1, 2) else [0]))
+        if ops[-1][0] in (11, 13):
+            ops[-1] = ops[-1][:2]
+    if recv_script:
+        r_id = sid(other, 1, 0)
+        ids.append(r_id)
+        n1 = rng.choice([0, 1, 4, 9])
+        m = rng.below(4)
+        if m == 0:
+            ops.append([1, r_id, 0, n1, 1])
+        elif m == 1:
+            ops.append([1, r_id, 0, n1, 0])
+            ops.append([1, r_id, n1, 3, 1])
+        elif m == 2:
+            ops.append([1, r_id, 0, n1, 0])
+            ops.append([2, r_id, rng.below(4), n1 + rng.below(3)])
+        else:
+            ops.append([1, r_id, 0, n1, 0])
+            ops.append([4, r_id, 1])
+            ops.append([1, r_id, n1, 2, 1])
+        ends[r_id] = n1 + 3
+        if rng.chance(1, 2):
+            ops.append([18])
+            ops.append([9, 1])
+        ops.append([3, r_id, 1, rng.choice([1 << 20, 1 << 20, 2])])
+        ops.append([3, r_id, 1, 1 << 20])
+        ops.append([rng.choice([3, 4, 5]), r_id, 1, 5][:rng.choice([2, 4])])
+        if ops[-1][0] == 3 and len(ops[-1]) == 2:
+            ops[-1] = [3, r_id, 1, 5]
+        if ops[-1][0] == 4:
+            ops[-1] = [4, r_id, 0]
+        if ops[-1][0] == 5:
+            ops[-1] = [5, r_id]
+    for _ in range(rng.range(4, 30)):
         k = rng.below(100)
         if len(ops) > 70:
             break
